@@ -22,7 +22,7 @@ VERDICT = {
     "C05-3": ("C05 K-slots", "slot-wrapper kernel (emitted C -> LLVM IR -> z3) added after the miss; evaluated with patch_rebased.diff because two fix: commits changed the surrounding lines"),
     "C06-1": ("C06", "generated displays of length 10-12 added after the miss"),
     "C06-2": ("C06", "one-branch definition + reference-free raising call shapes added after two misses"),
-    "C06-3": (None, "C emission (emitclass) is outside the IR-level claim"),
+    "C06-3": ("C06 K-glue", "emitted tp_new ownership kernel (C -> LLVM IR -> z3) added after the miss; replay = real build, reference growth over failed constructions"),
     "C07-1": ("C07", "solver-chosen stale/fresh split added after the miss"),
     "C07-2": ("C07 W1", "worker-side kernel added after the miss"),
     "C09-1": ("C09 K2b", "kernel added after the miss"),
